@@ -436,3 +436,94 @@ def c12_varsync(R):
             construct=f"{name}: constraints replaced, variables not recomputed",
         )
     R.need(n >= 1, "no method replaces self.constraints any more")
+
+
+HYB_ = "claripy/frontend/hybrid_frontend.py"
+
+
+@rule(
+    "C12.namesfor",
+    props=("C12",),
+    floor=2,
+    family="SIB",
+    desc="CompositeFrontend._names_for collects, for each operand it is given, the variables of that very operand: the "
+    "children a query is sent to are chosen by these names",
+)
+def c12_namesfor(R):
+    tree = R.tree
+    m = tree.mod(CF)
+    cls = tree.cls(CF, "SolverComposite") if "SolverComposite" in m.classes else tree.cls(CF, "CompositeFrontend")
+    fn = util.methods_of(cls).get("_names_for")
+    R.need(fn is not None, "_names_for not found")
+    from .. import guards as _g
+
+    n = 0
+    for c in walk_no_nested(fn):
+        if not (isinstance(c, ast.Call) and isinstance(c.func, ast.Attribute) and c.func.attr in ("update", "add") and c.args):
+            continue
+        srcs = {ast.unparse(x.value) for x in ast.walk(c.args[0]) if isinstance(x, ast.Attribute) and x.attr == "variables"}
+        if not srcs:
+            continue
+        tested = set()
+        for t, pol in _g.guards_of(c):
+            if not pol:
+                continue
+            for x in ast.walk(t):
+                if isinstance(x, ast.Call) and isinstance(x.func, ast.Name) and x.func.id == "isinstance" and x.args:
+                    tested.add(ast.unparse(x.args[0]))
+                if isinstance(x, ast.Compare) and isinstance(x.ops[0], ast.IsNot):
+                    tested.add(ast.unparse(x.left))
+        if not tested:
+            continue
+        n += 1
+        R.check(
+            srcs <= tested,
+            m,
+            c,
+            "names are taken from the operand that was tested",
+            f"{cls.name}._names_for tests {sorted(tested)} and collects the variables of {sorted(srcs)}: solution(e, v) with a symbolic "
+            f"v whose variables live in another child is then sent to a solver where v is unconstrained and answers True "
+            f"(solution(x, y) with x < 5, y > 10)",
+            construct="_names_for: variables of another operand than the one tested",
+        )
+    R.need(n >= 2, f"_names_for: only {n} guarded collections found")
+
+
+@rule(
+    "C13.splitfresh",
+    props=("C13", "C14", "C15"),
+    floor=1,
+    family="TS",
+    desc="every solver HybridFrontend.split (merge, combine) hands out has sub-frontends of its own: a frontend passed to a "
+    "HybridFrontend(...) built inside a loop over the parts is created inside that loop",
+)
+def c13_splitfresh(R):
+    tree = R.tree
+    m = tree.mod(HYB_)
+    cls = tree.cls(HYB_, "HybridFrontend")
+    n = 0
+    for name in ("split",):
+        fn = util.methods_of(cls).get(name)
+        if fn is None:
+            continue
+        for loop in (x for x in ast.walk(fn) if isinstance(x, (ast.For, ast.comprehension))):
+            body = loop.body if isinstance(loop, ast.For) else []
+            ctor = [c for st in body for c in ast.walk(st) if isinstance(c, ast.Call) and isinstance(c.func, ast.Name) and c.func.id in (cls.name,) or (isinstance(c, ast.Call) and ast.unparse(c.func) in ("type(self)", "self.__class__"))] if body else []
+            for c in ctor:
+                for a in c.args:
+                    if not isinstance(a, ast.Name):
+                        continue
+                    n += 1
+                    loop_var = {x.id for x in ast.walk(loop.target) if isinstance(x, ast.Name)}
+                    made_inside = a.id in loop_var or any(isinstance(st, ast.Assign) and any(isinstance(t, ast.Name) and t.id == a.id for t in st.targets) for st in body)
+                    R.check(
+                        made_inside,
+                        m,
+                        c,
+                        f"{name}: each part gets a sub-frontend made for it",
+                        f"HybridFrontend.{name} builds every part with `{a.id}`, which is created outside the loop over the parts: all parts "
+                        f"share one approximate frontend holding every part's constraints, and a part's exact=False query excludes "
+                        f"values that exist under its own constraints",
+                        construct=f"{name}: sub-frontend shared between the parts",
+                    )
+    R.need(n >= 1, "HybridFrontend.split: no part construction found")
